@@ -4,7 +4,7 @@ from __future__ import annotations
 import ast
 
 from engine.defuse import value_sources
-from engine.flow import dominating_guards, reachable_from_entry, same_name_value
+from engine.flow import expand_aliases, dominating_guards, reachable_from_entry, same_name_value
 from .links import check_links
 
 META = {
@@ -342,7 +342,7 @@ def check(ctx):
     for n in pos_calls:
         form = None
         for t, tr in dominating_guards(an, rp, n):
-            e = t.ast
+            e = expand_aliases(rp, t.ast, t)       # `container = self._container; if container is None: return`
             if isinstance(e, ast.Attribute) and e.attr == "_container" and tr:
                 form = form or "truthiness"
             if isinstance(e, ast.Compare) and isinstance(e.left, ast.Attribute) and e.left.attr == "_container" and \
@@ -388,7 +388,10 @@ def check(ctx):
     dv = model.method("DictProxy", "_validate")
     g = an.cfg(dv)
     raises = [x for x in ast.walk(dv.node) if isinstance(x, ast.Raise) and isinstance(x.exc, ast.Call)]
-    ctx.need(len(raises) >= 2, "DictProxy._validate no longer raises for key and value")
+    ctx.need(len(raises) >= 1, "DictProxy._validate no longer raises for key and value")
+    # both component validations are converted (two try blocks, or one loop over (key, value) with one handler)
+    vcalls = [n for n in g.nodes if n.kind == "call" and isinstance(n.ast.func, ast.Attribute) and n.ast.func.attr == "validate"]
+    ctx.need(len(vcalls) >= 1, "DictProxy._validate no longer validates key and value through their fields")
     kparam = dv.positional_params[1]
     for r in raises:
         kws = {k.arg: k.value for k in r.exc.keywords}
